@@ -32,6 +32,8 @@ func checkC13(c *Ctx) {
 	c.ruleArrayConversion("T9", inScope)
 	c.ruleDivisor("T10", inScope)
 	c.ruleNilOnError("N2.onerror", inScope)
+	c.ruleStaleNil("N3.stalenil", inScope)
+	c.ruleNoGlobalGrowth("T11.retain", inScope)
 	c.ruleAssert("B.assert", inScope)
 	c.ruleLockPairing("R.lock", inScope)
 	c.ruleHashAvailable("B.hash", inScope)
@@ -59,6 +61,8 @@ func checkC14(c *Ctx) {
 	c.ruleArrayConversion("T9", inScope)
 	c.ruleDivisor("T10", inScope)
 	c.ruleNilOnError("N2.onerror", inScope)
+	c.ruleStaleNil("N3.stalenil", inScope)
+	c.ruleNoGlobalGrowth("T11.retain", inScope)
 	c.ruleAssert("B.assert", inScope)
 	c.ruleLockPairing("R.lock", inScope)
 	c.ruleHashAvailable("B.hash", inScope)
